@@ -57,6 +57,9 @@ func (p *Prog) shortFn(fn *ssa.Function) string {
 
 func (e *Enc) decideCall(callee *ssa.Function, depth int) (callKind, *Contract) {
 	if c := e.P.contractFor(callee); c != nil {
+		if c.Inline && callee.Blocks != nil && depth < maxInlineDepth && callee != e.fn {
+			return ckInline, nil
+		}
 		return ckContract, c
 	}
 	if !e.P.inRepo(callee) {
